@@ -78,7 +78,9 @@ def main():
     try:
         dst = os.path.join(scratch, "repo")
         shutil.copytree("/repo", dst, ignore=shutil.ignore_patterns(".git", "__pycache__", "docs", "vendor", "CHANGES"))
-        rc, out = sh(f"patch -p1 -s -i {patch}", cwd=dst)
+        head_patch = os.path.join(src, "patch_on_head.diff")  # the same change re-made on top of our fix commits
+        use = head_patch if os.path.exists(head_patch) else patch
+        rc, out = sh(f"patch -p1 -s -i {use}", cwd=dst)
         if rc:
             print("patch does not apply on /repo HEAD (our fixes touched it?):", out[-300:])
             meta["applies_on_repo_head"] = False
@@ -107,6 +109,9 @@ def main():
     os.makedirs(dst, exist_ok=True)
     shutil.copy(patch, os.path.join(dst, "patch.diff"))
     shutil.copy(demo, os.path.join(dst, "demo.py"))
+    if os.path.exists(os.path.join(src, "patch_on_head.diff")):
+        shutil.copy(os.path.join(src, "patch_on_head.diff"), os.path.join(dst, "patch_on_head.diff"))
+        meta["note"] = "patch.diff applies to the pinned commit; patch_on_head.diff is the same change re-made on /repo HEAD (after our fix: commits)"
     with open(os.path.join(dst, "meta.json"), "w") as f:
         json.dump(meta, f, indent=1)
     return 0
